@@ -2,6 +2,9 @@ import XrsVerif.Proofs.Proximity
 import XrsVerif.Proofs.ProximitySmall
 import XrsVerif.Proofs.KSimp
 import XrsVerif.Gen.ProximityFacts
+import XrsVerif.Proofs.ILProxNumpy
+import XrsVerif.Proofs.ILProxDir
+import XrsVerif.Proofs.ILProxWitness
 /-
   C06 -- Proximity, allocation, direction name one real target, never underestimated.
 
@@ -495,5 +498,125 @@ example : ∃ (T : Trig Rat) (pi δ : Rat), pi * (kdeg : Rat) = 180 + δ ∧ 0 <
   · intro x hx; left; simp [not_lt.2 (le_of_lt hx)]
   · intro a ha; simp [ne_of_lt ha, not_lt.2 (le_of_lt ha)]
   · intro a ha; simp [ne_of_gt ha, ha]
+
+/-! ### the generated programs (layer T3)
+
+  `Gen.IL.proximityLine`, `Gen.IL.processNumpy`, `Gen.IL.calcDirection` are translated statement by statement from
+  `_process_proximity_line`, the jitted closure `_process._process_numpy` and `_calc_direction` of /repo's current
+  source (harness/facts_il.py, validated against numba by harness/il_corr.py).  The theorems below are about these
+  generated terms: the refinement "generated program = hand model" (Proofs/ILProx*.lean) composed with the model
+  theorems above.  The model is an abstraction (squared integer distances, threshold `⌈2·max²⌉`), so the
+  refinement is relative to explicit hypotheses on the number type `F` (`IL.Arith`: an embedding `emb` of squared
+  distances under which the program's `<`, `>=`, `** 2`, `* 2.0`, `sqrt` are exact) and on the external
+  `_distance` (`IL.Px.PNInput.d2`: its square on the coordinate grids is `emb (dist2 c …)`); numba's float32 rounding
+  and int64 wrap-around are outside ILang. -/
+section generated
+open XrsVerif.IL XrsVerif.IL.Px
+variable {F : Type} [Fl F]
+
+/-- step 1: the target-test block of the generated line function computes `targetTest`, which is the model's
+    `isTargetVal` under any reading of the numbers that respects `==`, `!= 0`, `isfinite` -/
+theorem gen_target_rule (toVal : F → Val) (h : ValReading toVal) (x : F) (vals : List F) :
+    targetTest x vals = isTargetVal (vals.map toVal) (toVal x) :=
+  targetTest_model toVal h x vals
+
+/-- steps 2-3: **the generated `_process_proximity_line` is the model's sweep** `sweepN … c.W` (all pixels, forward or
+    backward), under the abstraction relation `LineRel` between its five work arrays and the model's `LineSt` -/
+theorem gen_line_sweep (c : Cfg) (emb : Nat → F) (tg : Nat → Nat → Bool) (row : Nat) (fwd : Bool)
+    (fuel : Nat) (s : IL.State F) (m0 : LineSt) (hs : s.ctl = .run)
+    (env : LineEnv N0 c emb tg row fwd s) (rel : LineRel c emb s m0) :
+    let r := Gen.IL.proximityLine.run s fuel
+    r.ctl = .ret ∧ LineRel c emb r (sweepN c tg row fwd m0 c.W) ∧ FrameS LV.lineScratch N0 s r :=
+  proximityLine_refines fuel s m0 hs env rel
+
+/-- step 4: **the generated `_process_numpy` is the model's `run`**: `img_distance` / `output_img` hold `proxAt` /
+    `allocAt` of `Prox.run c tg` cell by cell (`lpFin`: NaN for `none`, else non-negative with square `emb d`;
+    `outVal`: NaN, the raster value at the target (ALLOCATION), `dirF` towards it (DIRECTION)) -/
+theorem gen_process_numpy (c : Cfg) (emb : Nat → F) (tg : Nat → Nat → Bool) (s0 : IL.State F) (fuel : Nat)
+    (inp : PNInput c emb tg s0) :
+    let r := Gen.IL.processNumpy.run s0 fuel
+    r.ctl = .ret ∧ r.shp "img_distance" = [c.H, c.W] ∧ r.shp "output_img" = [c.H, c.W] ∧
+    (r.fa "img_distance").length = c.H * c.W ∧ (r.fa "output_img").length = c.H * c.W ∧
+    ∀ row, row < c.H → ∀ p, p < c.W →
+      lpFin emb ((r.fa "img_distance").getD (row * c.W + p) Fl.nan) (proxAt (run c tg) row p) ∧
+      (r.fa "output_img").getD (row * c.W + p) Fl.nan =
+        outVal (s0.ienv "process_mode") (s0.fa "img") (s0.fa "x_coords") (s0.fa "y_coords") c.W row p
+          (allocAt (run c tg) row p) :=
+  processNumpy_refines s0 fuel inp
+
+/-- **soundness, never-under and within-max for the generated program**: every cell of the outputs of the generated
+    `_process_numpy` is either NaN in both arrays, or `img_distance` is the (embedded) distance `d` from the cell to a
+    real target cell `t` of the grid, `d` is within `max_distance`, the exact nearest-target distance is not larger,
+    and `output_img` holds the ALLOCATION / DIRECTION value for that same `t` -/
+theorem gen_sound (c : Cfg) (emb : Nat → F) (tg : Nat → Nat → Bool) (s0 : IL.State F) (fuel : Nat)
+    (inp : PNInput c emb tg s0) (hrefl : c.Refl) (r p : Nat) (hr : r < c.H) (hp : p < c.W) :
+    let out := Gen.IL.processNumpy.run s0 fuel
+    ((out.fa "img_distance").getD (r * c.W + p) Fl.nan = Fl.nan ∧
+      (out.fa "output_img").getD (r * c.W + p) Fl.nan = Fl.nan) ∨
+    ∃ (t : Nat × Nat) (d : Nat),
+      (tg t.1 t.2 = true ∧ t.1 < c.H ∧ t.2 < c.W) ∧ d = dist2 c t.1 t.2 r p ∧ withinMax c d = true ∧
+      (∃ e, exact c tg r p = some e ∧ e ≤ d) ∧ (∀ m, c.max2x2 = some m → 2 * d ≤ m) ∧
+      lpRel emb ((out.fa "img_distance").getD (r * c.W + p) Fl.nan) (some d) ∧
+      (out.fa "output_img").getD (r * c.W + p) Fl.nan =
+        outVal (s0.ienv "process_mode") (s0.fa "img") (s0.fa "x_coords") (s0.fa "y_coords") c.W r p (some t) := by
+  intro out
+  obtain ⟨_, _, _, _, _, hcell⟩ := processNumpy_refines s0 fuel inp
+  obtain ⟨h1, h2⟩ := hcell r hr p hp
+  cases hd : proxAt (run c tg) r p with
+  | none =>
+    left
+    rw [hd] at h1
+    rw [(nan_together c tg hrefl r p hr hp).1 hd] at h2
+    exact ⟨h1, h2⟩
+  | some d =>
+    right
+    obtain ⟨t, ht, hT, hdist, hw⟩ := sound c tg hrefl r p hr hp d hd
+    rw [hd] at h1
+    rw [ht] at h2
+    exact ⟨t, d, hT, hdist, hw, never_under c tg hrefl r p hr hp d hd,
+      fun m hm => le_max c tg hrefl r p hr hp d m hd hm, h1, h2⟩
+
+/-- **zero exactly on targets, for the generated program**: the stored distance at a target cell is `0.0`-like
+    (`x * x = emb 0`), and at a cell whose stored distance squares to `emb 0` the model's proximity is 0 -- hence (with
+    `zero_iff_target`) the cell is a target when `dist` separates cells -/
+theorem gen_zero_on_targets (c : Cfg) (emb : Nat → F) (tg : Nat → Nat → Bool) (s0 : IL.State F) (fuel : Nat)
+    (inp : PNInput c emb tg s0) (r p : Nat) (hr : r < c.H) (hp : p < c.W) (ht : tg r p = true) :
+    lpRel emb (((Gen.IL.processNumpy.run s0 fuel).fa "img_distance").getD (r * c.W + p) Fl.nan) (some 0) := by
+  obtain ⟨_, _, _, _, _, hcell⟩ := processNumpy_refines s0 fuel inp
+  have h1 := (hcell r hr p hp).1
+  rw [run_zero c tg r p hr hp ht] at h1
+  exact h1
+
+/-- **the generated `_calc_direction` is the bearing the bearing theorems are about** (the KLang kernel
+    `Gen.calc_direction` and the ILang program `Gen.IL.calcDirection` are two translations of the same source) -/
+theorem gen_calc_direction (s : IL.State F) (fuel : Nat) (hs : s.ctl = .run) :
+    let r := Gen.IL.calcDirection.run s fuel
+    r.ctl = .ret ∧ r.fenv "ret0" = bearing (s.fenv "x1") (s.fenv "x2") (s.fenv "y1") (s.fenv "y2") := by
+  obtain ⟨h1, h2⟩ := calcDirection_refines s fuel hs
+  exact ⟨h1, by rw [h2, dirF_eq_bearing]⟩
+
+/-- DIRECTION mode of the generated `_process_numpy`: the value written for a recorded target `t` is the model's
+    `bearing` from the cell to `t` -/
+theorem gen_direction_value (img xc yc : List F) (W r p : Nat) (t : Nat × Nat) :
+    outVal 2 img xc yc W r p (some t) =
+      bearing (xc.getD (r * W + p) Fl.nan) (xc.getD (t.1 * W + t.2) Fl.nan)
+        (yc.getD (r * W + p) Fl.nan) (yc.getD (t.1 * W + t.2) Fl.nan) := by
+  simp [outVal, dirF_eq_bearing]
+
+/-- ALLOCATION mode: the raster value at the recorded target -/
+theorem gen_allocation_value (img xc yc : List F) (W r p : Nat) (t : Nat × Nat) :
+    outVal 1 img xc yc W r p (some t) = img.getD (t.1 * W + t.2) Fl.nan := by
+  simp [outVal]
+
+end generated
+
+/-! non-vacuity of the hypotheses of the generated-program theorems: a reading of `NV ℚ` as raster values, and a
+    1 × 2 raster over `NV ℝ` (`sqrt` = `Real.sqrt`, `_distance` = Euclidean, `max_distance = 2`) satisfying `PNInput` -/
+example : ∃ (T : Trig Rat), letI := T; ∃ toVal : NV Rat → Val, IL.Px.ValReading toVal :=
+  ⟨IL.Px.Witness.trigQ, _, IL.Px.Witness.ratReading⟩
+
+example : ∃ (c : Cfg) (emb : Nat → NV ℝ) (tg : Nat → Nat → Bool) (s0 : IL.State (NV ℝ)),
+    c.H = 1 ∧ c.W = 2 ∧ c.Refl ∧ tg 0 0 = true ∧ IL.Px.PNInput c emb tg s0 :=
+  ⟨_, _, _, _, rfl, rfl, IL.Px.Witness.wc_refl, rfl, IL.Px.Witness.wInput⟩
 
 end XrsVerif.C06
